@@ -17,7 +17,7 @@ T = ('thorough',)
 def e2e(name, kt, n, eps, epsrec, flt='float', tiers=Q, timeout=900, extra=None, narrow=None, mem_gb=14):
     d = dict(KT[kt]); d.update(N=n, NMIN=n, EPS=eps, EPSREC=epsrec, FLT=flt, VERIF_VEC_CAP=n + 4)
     if extra: d.update(extra)
-    return dict(name=name, unit='pgm_e2e.cpp', harness='h_pgm_e2e.c', defs=d, cbmc_extra=['--no-array-field-sensitivity'],
+    return dict(frame_stores=bool(extra and 'WITH_FRAME' in extra), name=name, unit='pgm_e2e.cpp', harness='h_pgm_e2e.c', defs=d, cbmc_extra=['--no-array-field-sensitivity'],
                 narrow=narrow if narrow is not None else (16 if KT[kt]['KEY_BITS'] == 8 else 0), timeout=timeout, tiers=tiers, mem_gb=mem_gb,
                 bounds='exactly n = %d keys of %s (all values except the reserved maximum%s), every query value except the reserved one, Epsilon=%d, '
                        'EpsilonRecursive=%d, %s slopes; sequential construction; every loop bound checked by an unwinding assertion'
@@ -84,7 +84,7 @@ def mapped(name, kt, n, eps=1, epsrec=1, ord_hi=None, tiers=Q, timeout=900, fram
     d = dict(KT[kt]); d.update(N=n, EPS=eps, EPSREC=epsrec, FLT='float', VERIF_VEC_CAP=n + 4)
     if frame: d.update(WITH_FRAME=1)
     if ord_hi is not None: d.update(ORD_HI=ord_hi)
-    return dict(name=name, unit='mapped.cpp', harness='h_mapped.c', defs=d, narrow=16 if KT[kt]['KEY_BITS'] == 8 else 0, timeout=timeout, tiers=tiers,
+    return dict(name=name, unit='mapped.cpp', harness='h_mapped.c', defs=d, narrow=16 if KT[kt]['KEY_BITS'] == 8 else 0, timeout=timeout, tiers=tiers, frame_stores=frame,
                 cbmc_extra=['--no-array-field-sensitivity'], unwind_rules=[(r'^F_u_mapped\.', 100)] if frame else [],
                 bounds='exactly %d sorted %s keys%s, every duplicate structure, every query except the reserved value, Epsilon=%d, EpsilonRecursive=%d; '
                        'file/mmap layer replaced by a pointer to the array (accessor hook)' % (n, kt, '' if ord_hi is None else ' with ordinals 0..%d' % ord_hi, eps, epsrec))
@@ -179,7 +179,7 @@ def sdslidx(name, unit, ufunc, kt, n, eps=1, epsrec=1, tiers=Q, timeout=1800, me
 
 def dynframe(name, fmode, nops, kmax=5, vmax=3, idxl=10, tiers=Q, timeout=1200):
     d = dict(FMODE=fmode, NOPS=nops, KMAX=kmax, VMAX=vmax, BASE=2, BUFL=1, IDXL=idxl, EPS=1, EPSREC=1, VERIF_VEC_CAP=10, VERIF_VECVEC_CAP=36, VERIF_SET_CAP=kmax + 2)
-    return dict(name=name, unit='dyn_frame.cpp', harness='h_dyn_frame.c', defs=d, narrow=16, timeout=timeout, tiers=tiers,
+    return dict(name=name, unit='dyn_frame.cpp', harness='h_dyn_frame.c', defs=d, narrow=16, timeout=timeout, tiers=tiers, frame_stores=True,
                 bounds='frame condition for DynamicPGMIndex %s after every history of %d updates over keys 0..%d (base 2, buffer_level 1, index_level %d)'
                        % (['find/count/lower_bound', 'begin()..end() traversal'][fmode], nops, kmax, idxl))
 
